@@ -21,3 +21,4 @@ import IrisVerif.Props.C04
 import IrisVerif.Props.C18
 import IrisVerif.Props.C15
 import IrisVerif.Props.C13
+import IrisVerif.Props.QMatBridge
